@@ -977,14 +977,26 @@ class Sym:
                 d = decs
                 if t[0] == "switch" and sum(1 for y in fn.succs(x) if y in live) > 1:
                     vals = [v for v, tgt in t[2] if tgt == sx]
-                    if sx == t[3] and not vals:
-                        tv = ("ne", tuple(v for v, _ in t[2]))
-                    elif len(vals) == 1 and sx != t[3]:
+                    cnd = None
+                    if sx == t[3]:
+                        # the default edge (also the target of some listed values): taken unless another listed value matches
+                        tv = ("ne", tuple(v for v, tgt in t[2] if tgt != sx))
+                    elif len(vals) == 1:
                         tv = ("eq", vals[0])
+                    elif vals:
+                        # several listed values share this target (`2 | 3 => ..`): the edge is taken iff the scrutinee is one of them
+                        cnd = cond_of(x)
+                        acc = None
+                        for v_ in vals:
+                            t_ = ("bin", "Eq", cnd, ("const", v_))
+                            acc = t_ if acc is None else ("bin", "BitOr", acc, t_)
+                        cnd = acc
+                        tv = ("ne", (0,))
                     else:
                         tv = None
                     if tv is not None:
-                        d = decs + [(cond_of(x), tv, x) if with_blocks else (cond_of(x), tv)]
+                        cnd = cnd if cnd is not None else cond_of(x)
+                        d = decs + [(cnd, tv, x) if with_blocks else (cnd, tv)]
                 if not dfs(sx, seen | {sx}, d):
                     return False
             return True
